@@ -17,7 +17,11 @@ if TYPE_CHECKING:
 logger = get_logger(__name__)
 
 # Matches both legacy (v3.metadata.json) and current (v3-1a2b3c4d.metadata.json) names
-_METADATA_FILE_RE = re.compile(r"^v(\d+)(?:-[0-9a-f]{8})?\.metadata\.json$")
+# The version is bounded to 18 digits: int() refuses digit strings beyond
+# sys.get_int_max_str_digits() (4300) with a ValueError, and a hint or file name
+# carrying such a "version" is garbage to be ignored, never a reason to raise.
+_MAX_VERSION_DIGITS = 18
+_METADATA_FILE_RE = re.compile(r"^v(\d{1,18})(?:-[0-9a-f]{8})?\.metadata\.json$")
 
 
 class ConcurrentModificationException(Exception):
@@ -630,7 +634,7 @@ class MetadataManager:
             return None
         if not text:
             return None
-        if text.isascii() and text.isdigit():
+        if text.isascii() and text.isdigit() and len(text) <= _MAX_VERSION_DIGITS:
             # Legacy format: plain version number -> legacy filename.
             # ASCII only: str.isdigit() is also true for characters such as
             # '\u00b2' (superscript two), for which int() raises - a corrupt hint
